@@ -43,7 +43,7 @@ def generate(rng, tier, index):
     p = {'a': round(rng.uniform(0.5, 2.0), 3), 'b': round(rng.uniform(0.3, 1.5), 3)}
     if rng.random() < 0.5:
         p['a'] = -p['a']
-    return {'ode': ode, 'it': it, 'sched': sched, 'pattern': pattern, 't0': t0, 'T': T, 'p': p,
+    return {'ode': ode, 'it': it, 'sched': sched, 'pattern': pattern, 't0': t0, 'T': T, 'p': p, 'scale': rng.choice([1.0, 1.0, 1.0, 20.0, 300.0]),
             'N': [8, 16, 32, 64, 128] if it == 'rk4' else [80, 160, 320, 640, 1280]}
 
 
@@ -53,16 +53,20 @@ class OdeModel(GenericModel):
         self.ode = rec['ode']
         self.a = rec['p']['a']
         self.b = rec['p']['b']
-        self.t0 = rec['t0']
+        # time scale S: the problem is x'(t) = f(t/S, x)/S on [S t0, S (t0+T)] -- same solution in tau = t/S, steps, clocks and
+        # the end time are S times larger (steps above one time unit exist for S >= 20)
+        self.S = float(rec.get('scale', 1.0))
+        self.t0 = rec['t0']            # in tau
         self.h = h
         self.pattern = rec['pattern']
         self.k = 0
-        self.t = self.t0
-        self.x = self.exact(self.t0)
+        self.t = self.t0 * self.S
+        self.x = self.exact(self.t)
         self.deriv_times = []
         self.accepted = []
 
     def exact(self, t):
+        t = t / self.S
         a, b, t0 = self.a, self.b, self.t0
         o = self.ode
         if o == 'exp':
@@ -87,6 +91,9 @@ class OdeModel(GenericModel):
         raise ValueError(o)
 
     def rhs(self, t, x):
+        return self.rhs_tau(t / self.S, x) / self.S
+
+    def rhs_tau(self, t, x):
         a, b = self.a, self.b
         o = self.ode
         if o == 'exp':
@@ -114,7 +121,7 @@ class OdeModel(GenericModel):
         return [self.rhs(t, x[0])]
 
     def getDt(self, dXdt):
-        dt = self.h * self.pattern[self.k % len(self.pattern)]
+        dt = self.S * self.h * self.pattern[self.k % len(self.pattern)]
         self.k += 1
         return dt
 
@@ -138,12 +145,12 @@ def execute(rec):
         m = OdeModel(rec, h)
         w = sw.RecordingIterator(sw.ITER_FN[it])
         try:
-            m.solve(T, solverType=w, minDtFrac=1e-9, maxDtFrac=1)
+            m.solve(T * m.S, solverType=w, minDtFrac=1e-9, maxDtFrac=1)
         except Exception as e:  # noqa
             F.add('C06.exception', f'solve raised {type(e).__name__}: {e}')
             break
         cnt['steps'] += len(m.accepted)
-        cnt['sim_time'] += T
+        cnt['sim_time'] += T * m.S
         ex = m.exact(m.t)
         err = float(np.max(np.abs(m.x - ex)) / max(np.max(np.abs(ex)), 1e-300))
         errs.append(err)
@@ -168,8 +175,8 @@ def execute(rec):
                 break
         if w.mutated:
             F.add('C06.state_mutated', f'{it}: iterator modified the state vector it was given in {w.mutated} steps', it=it)
-        if abs(m.t - (rec['t0'] + T)) > 0:
-            F.add('C06.end_time', f'run ended at {m.t!r}, expected {rec["t0"] + T!r}')
+        if abs(m.t - (rec['t0'] * m.S + T * m.S)) > 0:
+            F.add('C06.end_time', f'run ended at {m.t!r}, expected {rec["t0"] * m.S + T * m.S!r}')
     # --- observed order: overall slope over the usable halvings, one-sided ("reaches its nominal order";
     # an apparent order above nominal happens when the leading error term changes sign and is no violation)
     # (relative errors; the rounding floor of N <= 128 steps is ~1e-14, so 1e-12 keeps a factor 50+ above it and lets the fine grids,
